@@ -90,6 +90,10 @@ func hook(kind string, obj uintptr, site string) {
 	<-t.resume
 }
 
+// Yield is a scheduling point placed by the harness itself (between two calls of a thread body).
+// Its site ends in ":0", so it belongs to the coarse (function-level) point set too.
+func Yield(site string) { hook("point", 0, "harness:"+site+":0") }
+
 // Install sets the library hook.  Call once before any exploration.
 func Install() { vsync.Hook = hook }
 
